@@ -265,7 +265,9 @@ Section Machine.
   Record cell := { cdt : dt; cval : V }.
   Record state := { env : list (var * loc); heap : list (loc * cell);
                     next : loc; pc : nat; hz : nat; taint : list loc }.
-  (* hz counts value hazards: arithmetic carried out in a non-float dtype (may wrap),
+  (* hz counts value hazards: arithmetic (add, subtract, multiply, power) carried out in any dtype other than float64
+     (integers wrap; float16/float32 products and squares leave their range for values that
+     are perfectly representable, so the result would depend on the input dtype),
      lossy stores into a non-float buffer, and stores into a `tainted` buffer.
      A buffer is tainted when a variable stays bound to it only because of the dtype
      (`if int: x = x.astype(float)` not taken; `x << unit` on a float array is a view):
@@ -359,7 +361,7 @@ Section Machine.
             | None => RRaise ENoLoop
             | Some L =>
                 ROk (alloc dst {| cdt := L; cval := binval op L xa xb |}
-                       (bump (arith op && negb (is_float L)) s))
+                       (bump (arith op && negb (dt_eqb L DF64)) s))
             end
         | _, _ => RStuck
         end
@@ -371,7 +373,7 @@ Section Machine.
             | Some L =>
                 if same_kind L (cdt c) then
                   ROk (store l {| cdt := cdt c; cval := cast L (cdt c) (binval op L (cval c) xb) |}
-                         (bump ((arith op && negb (is_float L))
+                         (bump ((arith op && negb (dt_eqb L DF64))
                                 || (negb (is_float (cdt c)) && negb (dt_eqb L (cdt c)))) s))
                 else RRaise ECast
             end
